@@ -100,6 +100,9 @@ func (s *Sim) applyUpdates(set *tmtypes.ValidatorSet, ups []abci.ValidatorUpdate
 		if u.Power < 0 {
 			return fmt.Errorf("voting power can't be negative %v", u)
 		}
+		if u.Power == 0 {
+			continue // validateValidatorUpdates: "this is deleting the validator, and thus there is no pubkey to check"
+		}
 		if u.PubKey.Type != tmtypes.ABCIPubKeyTypeEd25519 {
 			return fmt.Errorf("validator %v is using pubkey %s, which is unsupported for consensus", u, u.PubKey.Type)
 		}
